@@ -3,7 +3,7 @@ package rules
 func init() {
 	register(&Property{
 		ID:      "C09",
-		Explain: "FOLD of both server upgraders. ws.Upgrader.Upgrade is evaluated on scripted requests (request-line forms GET 1.1 / 1.2 / 1.0 / 2.0 / 0.9 / POST / malformed; header lists: none, all five mandatory headers in two orders, each one missing, each header kind alone, with extra/protocol/extension/duplicate headers, a line without colon) with every value comparison, length test and user callback as a free atom and every read or flush able to fail; each path's outcome is compared with the reference decision procedure of RFC 6455 4.2.1: 101 exactly when nothing is broken, otherwise one error response built for the first broken rule and never a 101, transport errors returned untouched, no response for an unparsable request line, the accept key computed from the copy of the received 24-byte key, first accepted subprotocol returned and sent, pooled buffers put back exactly once after their last use. ws.HTTPUpgrader.Upgrade is folded over method x HTTP version cells x header atoms and must agree with the same reference (sibling agreement). The accept computation, the digit predicate of asciiToInt, the HTTP version parser and the response writers are folded separately. The status code handed to the error response is a real status on every path (a rejection without a status falls back to 500). config-read-only: no store reaches memory that belongs to the Upgrader / HTTPUpgrader value (whole-module may-write summaries). httpParseVersion is evaluated on ~1000 concrete version tokens against \"HTTP/\" 1*DIGIT \".\" 1*DIGIT; negotiateExtensions is folded over scripted option lists x callback outcomes (each extension offered once, in order; nothing negotiated after a rejection; the rejection returned). asciiToInt is also evaluated on long tokens around the int overflow boundaries (a value that does not fit is an error, also when the wrapped result is a small positive number). The status line of an error response carries the code that was asked for (13 codes from 101 to 599). extra-headers-writer: HandshakeHeaderHTTP.WriteTo delegates to net/http's Header.Write. A path stands for every configuration that agrees with the atoms it asked: where a callback or selector applies (OnRequest, OnHost, OnHeader, OnBeforeUpgrade, Protocol/ProtocolCustom, Negotiate, Extension/ExtensionCustom) a path that never asked whether it is set, or never asked for its verdict, is a violation; so is an error response that does not depend on whether the error is a rejection; the configured extra headers are written first and the rejection's headers second. builtin-error-statuses: the package initialiser of ws is folded (only functions that build or fill a ConnectionRejectedError are followed) and every built-in handshake error must come out as a rejection with the status the property names: 505, 405, 400, 426 with Sec-WebSocket-Version: 13. What is sent in the 101 (subprotocol, extensions) is what is returned; every Sec-WebSocket-Extensions line adds to what the earlier lines selected.",
+		Explain: "FOLD of both server upgraders. ws.Upgrader.Upgrade is evaluated on scripted requests (request-line forms GET 1.1 / 1.2 / 1.0 / 2.0 / 0.9 / POST / malformed; header lists: none, all five mandatory headers in two orders, each one missing, each header kind alone, with extra/protocol/extension/duplicate headers, a line without colon) with every value comparison, length test and user callback as a free atom and every read or flush able to fail; each path's outcome is compared with the reference decision procedure of RFC 6455 4.2.1: 101 exactly when nothing is broken, otherwise one error response built for the first broken rule and never a 101, transport errors returned untouched, no response for an unparsable request line, the accept key computed from the copy of the received 24-byte key, first accepted subprotocol returned and sent, pooled buffers put back exactly once after their last use. ws.HTTPUpgrader.Upgrade is folded over method x HTTP version cells x header atoms and must agree with the same reference (sibling agreement). The accept computation, the digit predicate of asciiToInt, the HTTP version parser and the response writers are folded separately. The status code handed to the error response is a real status on every path (a rejection without a status falls back to 500). config-read-only: no store reaches memory that belongs to the Upgrader / HTTPUpgrader value (whole-module may-write summaries). httpParseVersion is evaluated on ~1000 concrete version tokens against \"HTTP/\" 1*DIGIT \".\" 1*DIGIT; negotiateExtensions is folded over scripted option lists x callback outcomes (each extension offered once, in order; nothing negotiated after a rejection; the rejection returned). asciiToInt is also evaluated on long tokens around the int overflow boundaries (a value that does not fit is an error, also when the wrapped result is a small positive number). The status line of an error response carries the code that was asked for (13 codes from 101 to 599). extra-headers-writer: HandshakeHeaderHTTP.WriteTo delegates to net/http's Header.Write. A path stands for every configuration that agrees with the atoms it asked: where a callback or selector applies (OnRequest, OnHost, OnHeader, OnBeforeUpgrade, Protocol/ProtocolCustom, Negotiate, Extension/ExtensionCustom) a path that never asked whether it is set, or never asked for its verdict, is a violation; so is an error response that does not depend on whether the error is a rejection; the configured extra headers are written first and the rejection's headers second. builtin-error-statuses: the package initialiser of ws is folded (only functions that build or fill a ConnectionRejectedError are followed) and every built-in handshake error must come out as a rejection with the status the property names: 505, 405, 400, 426 with Sec-WebSocket-Version: 13. What is sent in the 101 (subprotocol, extensions) is what is returned; every Sec-WebSocket-Extensions line adds to what the earlier lines selected. httpGetHeader returns the first value of a field unchanged (never several lines joined); the header name is trimmed before it is canonicalised; readLine is folded on chunking scripts.",
 		Trusted: []string{"go/ssa + go/types", "the checker's abstract evaluator", "httphead token/option scanning (atoms)", "crypto/sha1 and encoding/base64 (not analysed)"},
 		Assume:  []string{"lexical behaviour of httphead on arbitrary header values and byte-exact response layout are not decided"},
 		Run: func(c *Ctx) {
